@@ -155,6 +155,12 @@ Definition disabled_no_probe_ok (sp : spec_state) (o : op) (b : obs) : bool :=
   forall_ids 0 (fun id x y => if marked_disabled (sp_sv sp) id && marked_disabled (spec_after sp o) id
                               then ohits y =? ohits x else true) (sp_before sp) (oeps b).
 
+(* clause 6 (the C15 side of the same mechanism): an endpoint that is not in the server list (before and
+   after the step) receives no health probe either *)
+Definition removed_no_probe_ok (sp : spec_state) (o : op) (b : obs) : bool :=
+  forall_ids 0 (fun id x y => if negb (in_servers (sp_sv sp) id) && negb (in_servers (spec_after sp o) id)
+                              then ohits y =? ohits x else true) (sp_before sp) (oeps b).
+
 Definition spec_step (sp : spec_state) (o : op) (b : obs) : spec_state :=
   match o with
   | OSync sv subs => mkSpec sv subs (sp_slots sp) (oeps b)
@@ -169,12 +175,12 @@ Definition spec_step (sp : spec_state) (o : op) (b : obs) : spec_state :=
 
 Definition step_ok (sp : spec_state) (o : op) (b : obs) : list bool :=
   [pick_sound_ok sp o b; pick_complete_ok sp o b; contacted_ok sp o b;
-   disabled_no_traffic_ok sp o b; disabled_no_probe_ok sp o b].
+   disabled_no_traffic_ok sp o b; disabled_no_probe_ok sp o b; removed_no_probe_ok sp o b].
 
 Definition and_lists (a b : list bool) : list bool := map (fun p => (fst p && snd p)%bool) (combine a b).
 
 Fixpoint hist_ok (sp : spec_state) (l : list (op * obs)) : list bool :=
   match l with
-  | [] => [true; true; true; true; true]
+  | [] => [true; true; true; true; true; true]
   | (o, b) :: r => and_lists (step_ok sp o b) (hist_ok (spec_step sp o b) r)
   end.
